@@ -68,6 +68,8 @@ type kCase struct {
 	Export     bool                          `json:"export"`
 	Overridden map[string][]report.Aggregate `json:"overridden"`
 	NoCustom   bool                          `json:"noCustom"`
+	Boom       bool                          `json:"boom"`          // also load the failing custom rule
+	SelectWait int                           `json:"selectWaitMs"`  // hold lintWithRegoRules before its final select
 	Procs      int                           `json:"procs"`
 }
 
@@ -94,6 +96,9 @@ func buildLinter(c *kCase) (linter.Linter, error) {
 	l := linter.NewLinter()
 	if !c.NoCustom {
 		l = l.WithCustomRulesFromFS(os.DirFS(filepath.Join(synthDir(), "custom")), ".")
+	}
+	if c.Boom {
+		l = l.WithCustomRulesFromFS(os.DirFS(filepath.Join(synthDir(), "boom")), ".")
 	}
 	uc, err := userConfig(c.User)
 	if err != nil {
@@ -222,8 +227,10 @@ func lintWithOrder(l linter.Linter, order []string) (report.Report, error) {
 	if len(order) == 0 {
 		return l.Lint(context.Background())
 	}
-	gateMu.Lock()
-	defer gateMu.Unlock()
+	if linter.VerifBeforeSelect == nil { // otherwise the caller already holds the gate lock
+		gateMu.Lock()
+		defer gateMu.Unlock()
+	}
 	pos := map[string]int{}
 	for i, n := range order {
 		pos[n] = i
@@ -289,6 +296,46 @@ func init() {
 		}
 		return out, nil
 	})
+	// N concurrent Lint calls of the same case in one process (sharing the bundle and OPA's caches)
+	register("kernel.concurrent", func(req map[string]any) (any, error) {
+		var c kCase
+		if err := decodeCase(req, &c); err != nil {
+			return nil, err
+		}
+		n := num(req, "n")
+		outs := make([]any, n)
+		var wg sync.WaitGroup
+		for k := 0; k < n; k++ {
+			wg.Add(1)
+			go func(k int) {
+				defer wg.Done()
+				defer func() {
+					if r := recover(); r != nil {
+						outs[k] = map[string]any{"panic": fmt.Sprint(r)}
+					}
+				}()
+				l, err := buildLinter(&c)
+				if err != nil {
+					outs[k] = map[string]any{"error": err.Error()}
+					return
+				}
+				in, err := inputOf(c.Files)
+				if err != nil {
+					outs[k] = map[string]any{"error": err.Error()}
+					return
+				}
+				l = l.WithInputModules(&in)
+				rep, err := l.Lint(context.Background())
+				if err != nil {
+					outs[k] = map[string]any{"error": err.Error()}
+					return
+				}
+				outs[k] = canonReport(rep, true)
+			}(k)
+		}
+		wg.Wait()
+		return outs, nil
+	})
 	register("kernel.lint", func(req map[string]any) (any, error) {
 		var c kCase
 		if err := decodeCase(req, &c); err != nil {
@@ -305,7 +352,15 @@ func init() {
 			}
 			l = l.WithInputModules(&in)
 		}
+		if c.SelectWait > 0 {
+			gateMu.Lock()
+			linter.VerifBeforeSelect = func() { time.Sleep(time.Duration(c.SelectWait) * time.Millisecond) }
+		}
 		rep, err := lintWithOrder(l, c.Order)
+		if c.SelectWait > 0 {
+			linter.VerifBeforeSelect = nil
+			gateMu.Unlock()
+		}
 		if err != nil {
 			return map[string]any{"error": err.Error()}, nil
 		}
